@@ -107,13 +107,16 @@ def strip (s : String) : String := s.trimAscii.toString
 /-! ### the private helpers -/
 
 /-- `line_order[rank]` if registered, else `line_order[rank_matches[rank]]` (a `KeyError` is `none`) -/
-def lineIdx (s : MState) (rank : String) : Option Nat := do
-  let lo ← s.lineOrder
-  match dget lo rank with
-  | some i => some i
-  | none => do
-    let r2 ← dget s.rankMatches rank
-    dget lo r2
+def lineIdx (s : MState) (rank : String) : Option Nat :=
+  match s.lineOrder with
+  | none => none
+  | some lo =>
+    match dget lo rank with
+    | some i => some i
+    | none =>
+      match dget s.rankMatches rank with
+      | some r2 => dget lo r2
+      | none => none
 
 /-- `rank in cls.line_order or rank in cls.rank_matches` -/
 def known (s : MState) (rank : String) : Bool :=
@@ -125,27 +128,33 @@ def typesOf (s : MState) (rank : String) : List String :=
   (s.traces.filter (fun e => e.1.1 == rank)).map (·.1.2)
 
 /-- `Metrics._writeTrace`: append the cached rows to the file, empty the cache, mark started -/
-def writeTrace (s : MState) (rank ty : String) : Option MState := do
-  let tr ← dget s.traces (rank, ty)
-  let f ← tr.file
-  let p ← s.pfx
-  let old := (dget s.fs (p, rank, ty)).getD []
-  pure { s with fs := dset s.fs (p, rank, ty) (old ++ f),
-                traces := dset s.traces (rank, ty) { tr with file := some [], started := true } }
+def writeTrace (s : MState) (rank ty : String) : Option MState :=
+  match dget s.traces (rank, ty), s.pfx with
+  | some tr, some p =>
+    match tr.file with
+    | some f =>
+      some { s with fs := dset s.fs (p, rank, ty) ((dget s.fs (p, rank, ty)).getD [] ++ f),
+                    traces := dset s.traces (rank, ty) { tr with file := some [], started := true } }
+    | none => none
+  | _, _ => none
 
 /-- `Metrics._startTrace`: truncate the file, push the header row -/
-def startTrace (s : MState) (rank ty : String) : Option MState := do
-  let i ← lineIdx s rank
-  let lp ← s.loopOrder
-  let tr ← dget s.traces (rank, ty)
-  let fs' ← (match tr.file with
-    | some _ => s.pfx.map (fun p => dset s.fs (p, rank, ty) [])
-    | none => some s.fs)
-  let names := lp.take (i + 1)
-  let h := Row.hdr (names.map (· ++ "_pos") ++ names ++ ["fiber_pos"])
-  pure { s with fs := fs',
-                traces := dset s.traces (rank, ty)
-                  { file := tr.file.map (· ++ [h]), mem := tr.mem.map (· ++ [h]), started := true } }
+def headerRow (lp : List String) (i : Nat) : Row :=
+  .hdr ((lp.take (i + 1)).map (· ++ "_pos") ++ lp.take (i + 1) ++ ["fiber_pos"])
+
+def startTrace (s : MState) (rank ty : String) : Option MState :=
+  match lineIdx s rank, s.loopOrder, dget s.traces (rank, ty) with
+  | some i, some lp, some tr =>
+    match (match tr.file with
+      | some _ => s.pfx.map (fun p => dset s.fs (p, rank, ty) [])
+      | none => some s.fs) with
+    | some fs' =>
+      some { s with fs := fs',
+                    traces := dset s.traces (rank, ty)
+                      { file := tr.file.map (· ++ [headerRow lp i]), mem := tr.mem.map (· ++ [headerRow lp i]),
+                        started := true } }
+    | none => none
+  | _, _, _ => none
 
 def startAll (s : MState) (rank : String) : Option MState :=
   (typesOf s rank).foldlM (fun s ty => startTrace s rank ty) s
@@ -154,110 +163,150 @@ def union (a b : List String) : List String := a ++ b.filter (fun x => !a.contai
 
 /-! ### the classmethods -/
 
-def step (op : MOp) (s : MState) : Option (Ret × MState) :=
-  match op with
-  | .beginCollect p =>
-    some (.unit, { s with allRankMatches := [], collecting := true, fiberLabel := [], iteration := some [],
-                          lineOrder := some [], loopOrder := some [], metrics := some [], point := some [],
-                          pfx := p, rankMatches := [], rankFlatten := [], traces := [] })
-  | .endCollect => do
-    let s1 ← s.traces.foldlM (fun (s : MState) (e : TKey × TraceSt) => do
-      let s' ← (if e.2.file.isSome then writeTrace s e.1.1 e.1.2 else some s)
-      match e.2.mem with
-      | some m => if m.isEmpty then some s' else none
-      | none => some s') s
-    pure (.unit, { s1 with collecting := false, fiberLabel := [], iteration := none, lineOrder := none,
-                           loopOrder := none, point := none, pfx := none, traces := [] })
-  | .registerRank rank => do
-    if !s.collecting then none
-    let lo ← s.lineOrder
-    if dhas lo rank then pure (.unit, s)
-    else do
-      let it ← s.iteration
-      let lp ← s.loopOrder
-      let pt ← s.point
-      let s1 : MState := { s with fiberLabel := dset s.fiberLabel rank 0, iteration := some (it ++ [0]),
-                                  lineOrder := some (dset lo rank it.length), loopOrder := some (lp ++ [rank]),
-                                  point := some (pt ++ [0]) }
-      let s2 ← startAll s1 rank
-      let s3 ← s2.allRankMatches.foldlM (fun (s : MState) (e : String × List String) =>
-        if e.2.contains rank then
-          startAll { s with rankMatches := dset s.rankMatches e.1 rank } e.1
-        else some s) s2
-      pure (.unit, s3)
-  | .addUse rank coord pos ty iterNum => do
-    if !s.collecting then none
-    if !known s rank then none
-    let lo ← s.lineOrder
-    let pt ← s.point
-    let i ← lineIdx s rank
-    let pt' := if dhas lo rank then pt.set i coord else pt
-    let s1 : MState := { s with point := some pt' }
-    match dget s.traces (rank, ty) with
-    | none => pure (.unit, s1)
-    | some tr => do
-      let itl ← (match iterNum with | some l => some l | none => s.iteration)
-      let data := Row.dat (itl.take (i + 1) ++ (pt'.take i ++ [coord]) ++ [pos])
-      let tr' : TraceSt := { tr with file := tr.file.map (· ++ [data]), mem := tr.mem.map (· ++ [data]) }
-      let s2 : MState := { s1 with traces := dset s1.traces (rank, ty) tr' }
-      match tr'.file with
-      | some f => if f.length = s.numCachedUses then (writeTrace s2 rank ty).map (fun s3 => (.unit, s3))
-                  else pure (.unit, s2)
-      | none => pure (.unit, s2)
-  | .incIter rank => do
-    if !s.collecting then none
-    if !known s rank then none
-    let it ← s.iteration
-    let i ← lineIdx s rank
-    if i < it.length then pure (.unit, { s with iteration := some (it.modify i (· + 1)) }) else none
-  | .endIter rank => do
-    if !s.collecting then none
-    let it ← s.iteration
-    let i ← lineIdx s rank
-    if i < it.length then
-      pure (.unit, { s with fiberLabel := dset s.fiberLabel rank 0, iteration := some (it.set i 0) })
-    else none
-  | .getLabel rank => do
-    if !s.collecting then none
-    let lo ← s.lineOrder
-    let (iterRank, fl) : String × Dict Nat :=
-      if dhas lo rank then (rank, s.fiberLabel)
-      else match dget s.rankMatches rank with
-        | some r2 => (r2, s.fiberLabel)
-        | none => if dhas s.fiberLabel rank then (rank, s.fiberLabel) else (rank, dset s.fiberLabel rank 0)
-    let v ← dget fl iterRank
-    pure (.nat v, { s with fiberLabel := dset fl iterRank (v + 1) })
-  | .getIndex rank => do
-    if !s.collecting then none
-    if !known s rank then none
-    let i ← lineIdx s rank
-    pure (.nat i, s)
-  | .getIter => some (.iters s.iteration, s)
-  | .incCount line metric inc => do
-    if !s.collecting then none
-    let m ← s.metrics
-    let l := strip line
-    let inner := (dget m l).getD []
-    let v := (dget inner metric).getD 0
-    pure (.unit, { s with metrics := some (dset m l (dset inner metric (v + inc))) })
-  | .isCollecting => some (.bool s.collecting, s)
-  | .isTraced rank ty => if s.collecting then some (.bool (dhas s.traces (rank, ty)), s) else none
-  | .matchRanks r1 r2 =>
-    let arm := if dhas s.allRankMatches r1 then s.allRankMatches else dset s.allRankMatches r1 []
-    let arm := if dhas arm r2 then arm else dset arm r2 []
-    let all := union (union ((dget arm r1).getD []) ((dget arm r2).getD [])) (union [r1] [r2])
-    some (.unit, { s with allRankMatches := all.foldl (fun a r => dset a r (all.filter (· != r))) arm })
-  | .trace rank ty consumable => do
-    if !(consumable || s.pfx.isSome) then none
-    if !s.collecting then none
+def mBegin (p : Option String) (s : MState) : MState :=
+  { s with allRankMatches := [], collecting := true, fiberLabel := [], iteration := some [],
+           lineOrder := some [], loopOrder := some [], metrics := some [], point := some [],
+           pfx := p, rankMatches := [], rankFlatten := [], traces := [] }
+
+/-- one round of `endCollect`'s loop: flush a file trace, insist that a consumable one was consumed -/
+def endOne (s : MState) (e : TKey × TraceSt) : Option MState :=
+  match (if e.2.file.isSome then writeTrace s e.1.1 e.1.2 else some s) with
+  | none => none
+  | some s' =>
+    match e.2.mem with
+    | some m => if m.isEmpty then some s' else none
+    | none => some s'
+
+def mEnd (s : MState) : Option MState :=
+  (s.traces.foldlM endOne s).map (fun s1 =>
+    { s1 with collecting := false, fiberLabel := [], iteration := none, lineOrder := none,
+              loopOrder := none, point := none, pfx := none, traces := [] })
+
+def matchOne (rank : String) (s : MState) (e : String × List String) : Option MState :=
+  if e.2.contains rank then startAll { s with rankMatches := dset s.rankMatches e.1 rank } e.1 else some s
+
+def mRegister (rank : String) (s : MState) : Option MState :=
+  if s.collecting then
+    match s.lineOrder, s.iteration, s.loopOrder, s.point with
+    | some lo, some it, some lp, some pt =>
+      if dhas lo rank then some s
+      else
+        match startAll { s with fiberLabel := dset s.fiberLabel rank 0, iteration := some (it ++ [0]),
+                                lineOrder := some (dset lo rank it.length), loopOrder := some (lp ++ [rank]),
+                                point := some (pt ++ [0]) } rank with
+        | none => none
+        | some s2 => s2.allRankMatches.foldlM (matchOne rank) s2
+    | _, _, _, _ => none
+  else none
+
+/-- the row `addUse` builds -/
+def useRow (itl pt : List Int) (i : Nat) (coord pos : Int) : Row :=
+  .dat (itl.take (i + 1) ++ (pt.take i ++ [coord]) ++ [pos])
+
+def mAddUse (rank : String) (coord pos : Int) (ty : String) (iterNum : Option (List Int)) (s : MState) : Option MState :=
+  if s.collecting && known s rank then
+    match s.lineOrder, s.point, lineIdx s rank with
+    | some lo, some pt, some i =>
+      let pt' := if dhas lo rank then pt.set i coord else pt
+      let s1 : MState := { s with point := some pt' }
+      match dget s.traces (rank, ty) with
+      | none => some s1
+      | some tr =>
+        match (match iterNum with | some l => some l | none => s.iteration) with
+        | none => none
+        | some itl =>
+          let data := useRow itl pt' i coord pos
+          let tr' : TraceSt := { tr with file := tr.file.map (· ++ [data]), mem := tr.mem.map (· ++ [data]) }
+          let s2 : MState := { s1 with traces := dset s1.traces (rank, ty) tr' }
+          match tr'.file with
+          | some f => if f.length = s.numCachedUses then writeTrace s2 rank ty else some s2
+          | none => some s2
+    | _, _, _ => none
+  else none
+
+def mIncIter (rank : String) (s : MState) : Option MState :=
+  if s.collecting && known s rank then
+    match s.iteration, lineIdx s rank with
+    | some it, some i => if i < it.length then some { s with iteration := some (it.modify i (· + 1)) } else none
+    | _, _ => none
+  else none
+
+def mEndIter (rank : String) (s : MState) : Option MState :=
+  if s.collecting then
+    match s.iteration, lineIdx s rank with
+    | some it, some i =>
+      if i < it.length then
+        some { s with fiberLabel := dset s.fiberLabel rank 0, iteration := some (it.set i 0) }
+      else none
+    | _, _ => none
+  else none
+
+def mGetLabel (rank : String) (s : MState) : Option (Nat × MState) :=
+  if s.collecting then
+    match s.lineOrder with
+    | some lo =>
+      let x : String × Dict Nat :=
+        if dhas lo rank then (rank, s.fiberLabel)
+        else match dget s.rankMatches rank with
+          | some r2 => (r2, s.fiberLabel)
+          | none => if dhas s.fiberLabel rank then (rank, s.fiberLabel) else (rank, dset s.fiberLabel rank 0)
+      match dget x.2 x.1 with
+      | some v => some (v, { s with fiberLabel := dset x.2 x.1 (v + 1) })
+      | none => none
+    | none => none
+  else none
+
+def mIncCount (line metric : String) (inc : Int) (s : MState) : Option MState :=
+  if s.collecting then
+    match s.metrics with
+    | some m =>
+      let l := strip line
+      let inner := (dget m l).getD []
+      some { s with metrics := some (dset m l (dset inner metric ((dget inner metric).getD 0 + inc))) }
+    | none => none
+  else none
+
+def mMatchRanks (r1 r2 : String) (s : MState) : MState :=
+  let arm := if dhas s.allRankMatches r1 then s.allRankMatches else dset s.allRankMatches r1 []
+  let arm := if dhas arm r2 then arm else dset arm r2 []
+  let all := union (union ((dget arm r1).getD []) ((dget arm r2).getD [])) (union [r1] [r2])
+  { s with allRankMatches := all.foldl (fun a r => dset a r (all.filter (· != r))) arm }
+
+def mTrace (rank ty : String) (consumable : Bool) (s : MState) : Option MState :=
+  if (consumable || s.pfx.isSome) && s.collecting then
     let tr := (dget s.traces (rank, ty)).getD { file := none, mem := none, started := false }
     let tr' : TraceSt := if consumable then { tr with mem := some [] } else { tr with file := some [] }
-    pure (.unit, { s with traces := dset s.traces (rank, ty) tr' })
-  | .consumeTrace rank ty => do
-    if !s.collecting then none
-    let tr ← dget s.traces (rank, ty)
-    let m ← tr.mem
-    pure (.rows m, { s with traces := dset s.traces (rank, ty) { tr with mem := some [] } })
+    some { s with traces := dset s.traces (rank, ty) tr' }
+  else none
+
+def mConsume (rank ty : String) (s : MState) : Option (List Row × MState) :=
+  if s.collecting then
+    match dget s.traces (rank, ty) with
+    | some tr =>
+      match tr.mem with
+      | some m => some (m, { s with traces := dset s.traces (rank, ty) { tr with mem := some [] } })
+      | none => none
+    | none => none
+  else none
+
+def step (op : MOp) (s : MState) : Option (Ret × MState) :=
+  match op with
+  | .beginCollect p => some (.unit, mBegin p s)
+  | .endCollect => (mEnd s).map (fun s' => (.unit, s'))
+  | .registerRank rank => (mRegister rank s).map (fun s' => (.unit, s'))
+  | .addUse rank coord pos ty iterNum => (mAddUse rank coord pos ty iterNum s).map (fun s' => (.unit, s'))
+  | .incIter rank => (mIncIter rank s).map (fun s' => (.unit, s'))
+  | .endIter rank => (mEndIter rank s).map (fun s' => (.unit, s'))
+  | .getLabel rank => (mGetLabel rank s).map (fun x => (.nat x.1, x.2))
+  | .getIndex rank =>
+    if s.collecting && known s rank then (lineIdx s rank).map (fun i => (.nat i, s)) else none
+  | .getIter => some (.iters s.iteration, s)
+  | .incCount line metric inc => (mIncCount line metric inc s).map (fun s' => (.unit, s'))
+  | .isCollecting => some (.bool s.collecting, s)
+  | .isTraced rank ty => if s.collecting then some (.bool (dhas s.traces (rank, ty)), s) else none
+  | .matchRanks r1 r2 => some (.unit, mMatchRanks r1 r2 s)
+  | .trace rank ty consumable => (mTrace rank ty consumable s).map (fun s' => (.unit, s'))
+  | .consumeTrace rank ty => (mConsume rank ty s).map (fun x => (.rows x.1, x.2))
   | .setNumCachedUses n => if n > 1 then some (.unit, { s with numCachedUses := n }) else none
   | .associateShape rank =>
     some (.unit, { s with rankFlatten := if s.rankFlatten.contains rank then s.rankFlatten else s.rankFlatten ++ [rank] })
